@@ -23,7 +23,8 @@ TEXT = {
     "C04": dict(
         text="Theorems survives_crash_outside_rewrite_partial (every crash point after creation except between the truncation and the "
              "write of a rewrite: the restarted node lists the unit with its work type), survives_every_crash_if_atomic, finished_survives, "
-             "never_started_is_failed, remote_binding_survives, and C04_witness_type_lost_in_window (the recorded finding) over a model of "
+             "never_started_is_failed, remote_binding_survives, known_at_every_moment (a unit with a readable record is found at every "
+             "moment of the re-registration of work types at start-up), and C04_witness_type_lost_in_window (the recorded finding) over a model of "
              "the unit's files as sequences of file-system steps cut at any point, and of scanForUnit/Restart. Tie: regenerated facts "
              "(in-place rewrite, scanForUnit's steps, Restart of command and remote units, order of the remote binding writes) + a remote "
              "unit finished and mirrored over a real two-node mesh, then the submitting node restarted with the link down (state, size, "
